@@ -87,6 +87,9 @@ func (a Argv) String() string {
 			parts[i] = fmt.Sprintf("%q", str)
 		}
 	}
+	if len(parts) > 14 {
+		parts = append(parts[:10:10], fmt.Sprintf("...(%d args in total)", len(a)))
+	}
 	return strings.Join(parts, " ")
 }
 
